@@ -35,10 +35,10 @@ type mnode struct {
 }
 
 type model struct {
-	rt    *posa.Router
-	keys  []posa.Key
-	epoch uint64 // chain constant: validator lists / checkpoints are legal only at multiples (bor: sprint length)
-	gprev []int  // parlia/congress trust root: the older validator set recorded next to the genesis list
+	rt         *posa.Router
+	keys       []posa.Key
+	epoch      uint64   // chain constant: validator lists / checkpoints are legal only at multiples (bor: sprint length)
+	gprev      []int    // parlia/congress trust root: the older validator set recorded next to the genesis list
 	epochLists []string // list codes offered at epoch heights (nil: A, B, C)
 }
 
